@@ -747,7 +747,7 @@ func TestReplay_C15_Fixed(t *testing.T) {
 	vk.Guard(func() {
 		// FIX40 Allocation: second NoAllocs entry lacks the required AllocShares(80)
 		raw := fixwire.Build("FIX.4.0", []fixwire.Field{fixwire.F(35, "J"), fixwire.F(49, "S"), fixwire.F(56, "T"), fixwire.F(34, "1"), fixwire.F(52, "20240102-03:04:05"),
-			fixwire.F(70, "a1"), fixwire.F(71, "0"), fixwire.F(73, "1"), fixwire.F(11, "c"), fixwire.F(54, "1"), fixwire.F(55, "IBM"), fixwire.F(53, "10"), fixwire.F(6, "1.5"), fixwire.F(75, "20240102"),
+			fixwire.F(70, "1"), fixwire.F(71, "0"), fixwire.F(73, "1"), fixwire.F(11, "c"), fixwire.F(54, "1"), fixwire.F(55, "IBM"), fixwire.F(53, "10"), fixwire.F(6, "1.5"), fixwire.F(75, "20240102"),
 			fixwire.F(78, "2"), fixwire.F(79, "acc1"), fixwire.F(79, "acc2"), fixwire.F(80, "5")})
 		m := quickfix.NewMessage()
 		if err := quickfix.ParseMessageWithDataDictionary(m, bytes.NewBuffer(raw), nil, d["FIX40"].dd); err != nil {
